@@ -36,10 +36,29 @@ ASSUMPTIONS = [
 ]
 
 BF2_NAMES = ["SELECT", "CHECK_FWVER", "SELECT_IF", "CRC", "REBOOT", "Firmware", "Creator", "Bf3Update", "UNKNOWN"]
+
+
+def _source_names():
+    """every identifier-like string literal of the importer's module: names the code itself compares against or uses as
+    internal markers are exactly the ones a file can collide with"""
+    import ast
+    import re
+    with open(bf3file.__file__) as fh:
+        tree = ast.parse(fh.read())
+    found = set()
+    for node in ast.walk(tree):
+        if isinstance(node, ast.Constant) and isinstance(node.value, str) and re.fullmatch(r"[A-Za-z_][A-Za-z0-9_]{0,23}", node.value):
+            found.add(node.value)
+    return sorted(found - set(BF2_NAMES))
+
+
+BF2_NAMES = BF2_NAMES + _source_names()
+BF2_WHERE = ["before-data", "after-data", "no-data"]
 BF2_FORMS = ["instr0", "instr-x", "instr-all", "instr-good", "header", "header-empty", "header-hex"]
 ALLOWED = (FormatError, ValueError)
 CHUNK = 24
 REPL = "0FG:#>=, \n"
+TAG_VALUES = [b"", b"\x00", b"\x01", b"\x02", b"\x03", b"\xff", b"\x00\x02", b"\x02\x00", b"\x02\x02\x02", bytes(200)]
 BYTE_CLASSES = ["bit0", "bit1", "bit2", "bit3", "bit4", "bit5", "bit6", "bit7", "zero", "ff", "inc"]
 DECSETS = ["all", "none", "public", "private", "wrong"]
 _ART = None
@@ -185,7 +204,17 @@ def cases(ctx):
     for t in (0x84, 0x35, 0x70):
         for name in BF2_NAMES:
             for form in BF2_FORMS:
-                yield ("bf2kinds", t, name, form)
+                for where in BF2_WHERE:
+                    yield ("bf2kinds", t, name, form, where)
+    # reference-built VALID files (all MACs right) whose directory carries every tag id with unusual value forms: the reader
+    # interprets some tags (encryption mode) and must cope with any value length there
+    for tid in range(256):
+        for vi in range(len(TAG_VALUES)):
+            for plen in (16, 21):
+                for ep in ("bf3", "bec2"):
+                    if ep == "bec2" and tid not in (0xC1, 0xC2, 0xC3, 0xC4, 0x00, 0xFF):
+                        continue
+                    yield ("tags", tid, vi, plen, ep)
     for c in c05.cases(ctx):
         if len(c) == 3:                      # BF3 framing only (the BEC2 variants are C05's own business)
             yield ("edit",) + tuple(c[1:])
@@ -375,13 +404,16 @@ def run_case(ctx, case):
         }[variant]
         return guarded(o, "bf2", call_entry, ctx, "bf2", None, "", B.render(evs))
     if fam == "bf2kinds":
-        _, t, name, form = case
+        _, t, name, form, where = case
         ev = {"instr0": ("instr", name, {}), "instr-x": ("instr", name, {"X": "1"}),
               "instr-all": ("instr", name, {"FILTER": "zz", "VERSIONDESC": "01", "PROTOCOL": "q"}),
               "instr-good": ("instr", name, {"FILTER": "01 01 00 9B", "VERSIONDESC": "01 02 03 0A 0B 0C", "PROTOCOL": "BRP"}),
               "header": ("header", name, "abc"), "header-empty": ("header", name, ""), "header-hex": ("header", name, "0x12AB34CD")}[form]
         img = shapes.payload(ctx, "c14-kd", 12, 0)
-        evs = [("header", "Bf3Update", "yes"), ev, ("group", B.image_lines(t, img, 6, extra=b"\x01")), ("instr", "REBOOT", {})]
+        grp = ("group", B.image_lines(t, img, 6, extra=b"\x01"))
+        evs = {"before-data": [("header", "Bf3Update", "yes"), ev, grp, ("instr", "REBOOT", {})],
+               "after-data": [("header", "Bf3Update", "yes"), grp, ev, ("instr", "REBOOT", {})],
+               "no-data": [("header", "Bf3Update", "yes"), ev]}[where]
         return guarded(o, "bf2", call_entry, ctx, "bf2", None, "", B.render(evs))
     if fam == "bf2types":
         _, t, where = case
@@ -393,6 +425,23 @@ def run_case(ctx, case):
                "after-reboot": head + sec + [("instr", "REBOOT", {})] + grp + [("instr", "REBOOT", {})],
                "second-group": head + [("group", B.image_lines(0x35, img, 5))] + grp}[where]
         return guarded(o, "bf2", call_entry, ctx, "bf2", None, "", B.render(evs))
+    if fam == "tags":
+        _, tid, vi, plen, ep = case
+        key = ctx.sym("c14-tagkey")
+        comps = [{"tags": [(0xC3, b"\x01")], "content": shapes.payload(ctx, "c14-t0", 5, 0), "declared": 5, "enc": False},
+                 {"tags": [(tid, TAG_VALUES[vi])], "content": shapes.payload(ctx, "c14-t1", plen, 0), "declared": plen, "enc": False}]
+
+        class _F:
+            pass
+        f = _F()
+        f.key = key
+        if ep == "bf3":
+            text = L.render_text([], L.BF3_SIG + L.serialise(comps, 5, key))
+            return guarded(o, "bf3", call_entry, ctx, "bf3", f, "", text)
+        f.ckey = ctx.sym("fx-ckey")
+        hdr = AB.header([(1, AB.container_wrap(f.ckey, AB.cust_payload(key)))])
+        text = L.render_text([], hdr + L.serialise(comps, len(hdr), key))
+        return guarded(o, "bec2", lambda t: Bec2File.read_file(io.StringIO(t), [SoftwareCustKeyEncryptor(f.ckey)]), text)
     if fam == "edit":
         fi, edits = case[1], case[2]
         import copy
